@@ -714,8 +714,9 @@ def _reshape():
             return None
         rng.shuffle(base)
         if rng.random() < 0.4:
-            cand = [d for d in NEWDIMS if d not in base]
-            base.insert(rng.randint(0, len(base)), rng.choice(cand))
+            cand = [d for d in NEWDIMS + V.DIM_NAMES if d not in base]
+            if cand:
+                base.insert(rng.randint(0, len(base)), rng.choice(cand))
         if rng.random() < 0.3 and base:
             sizes = {}
             for ax in list.__iter__(a._axes):
